@@ -16,6 +16,7 @@ mod c19;
 mod c16;
 mod c17;
 mod c20;
+mod c07;
 
 fn main() {
     std::panic::set_hook(Box::new(|_| {}));
@@ -66,6 +67,9 @@ fn main() {
         "c17-record" => c17::record(rest),
         "c20-replay" => c20::replay(rest),
         "c20-record" => c20::record(rest),
+        "c07-names" => c07::names(rest),
+        "c07-worker" => c07::worker(rest),
+        "c07-run" => c07::run(rest),
         x => {
             eprintln!("unknown subcommand {}", x);
             std::process::exit(2);
